@@ -1402,7 +1402,21 @@ func boundsRule(r *Run, w *World, ruleID, pkg string, scope []*ssa.Function) {
 					}
 				}
 			case *ssa.MapUpdate:
-				if !mapNonNil(x.Map) {
+				if fv, _ := loadedField(x.Map); fv != nil && w.isRepoField(fv) {
+					// locally evident: the same function stores a fresh map into the same location in
+					// a block that dominates the write, or guards it with `if f == nil { f = make }`
+					if localMapInit(fn, x) {
+						r.OK(fnName(fn)+" map write "+Term(x.Map), x.Pos(), "the field is given a map earlier in the same function on every path to the write")
+						return
+					}
+					// otherwise: every allocation of the struct must give the field a map before
+					// the object can be seen by anyone else
+					if ok, why := w.mapFieldNeverNil(fv); !ok {
+						r.Fail(fnName(fn)+" map write "+Term(x.Map), x.Pos(), "write to a map field that may be nil: "+why)
+					} else {
+						r.OK(fnName(fn)+" map write "+Term(x.Map), x.Pos(), "the field is given a map in the block that allocates the struct, and is never set to nil")
+					}
+				} else if !mapNonNil(x.Map) {
 					r.Fail(fnName(fn)+" map write "+Term(x.Map), x.Pos(), "write to a map that may be nil")
 				}
 			case *ssa.Panic:
@@ -1429,6 +1443,193 @@ func (w *World) funcAtLine(file string, line int) *ssa.Function {
 		}
 	}
 	return nil
+}
+
+// localMapInit: the map written by mu is a field that the same function has set to a fresh map
+// on every path to the write: a store of make/literal into the same location in a dominating
+// block (or earlier in the same block), or the nil-guard idiom.
+func localMapInit(fn *ssa.Function, mu *ssa.MapUpdate) bool {
+	ld, ok := stripConv(mu.Map).(*ssa.UnOp)
+	if !ok || ld.Op != token.MUL {
+		return false
+	}
+	loc := AddrTerm(ld.X)
+	fresh := func(v ssa.Value) bool {
+		switch y := stripConv(v).(type) {
+		case *ssa.MakeMap:
+			return true
+		case *ssa.Const:
+			return y.Value != nil
+		}
+		return false
+	}
+	for _, st := range storesOf(fn) {
+		if AddrTerm(st.Addr) != loc || !fresh(st.Val) {
+			continue
+		}
+		if st.Block() == mu.Block() && orderInBlock(st) < orderInBlock(mu) {
+			return true
+		}
+		if st.Block() != mu.Block() && st.Block().Dominates(mu.Block()) {
+			return true
+		}
+		// nil-guard: the store is the only content of the true branch of `if loc == nil`, which
+		// rejoins before the write
+		for _, pred := range st.Block().Preds {
+			ifi, isIf := pred.Instrs[len(pred.Instrs)-1].(*ssa.If)
+			if !isIf || pred.Succs[0] != st.Block() || len(st.Block().Preds) != 1 {
+				continue
+			}
+			if Lit(ifi.Cond, true) == loc+" == nil" && len(st.Block().Succs) == 1 {
+				join := st.Block().Succs[0]
+				if (join == mu.Block() || join.Dominates(mu.Block())) && pred.Dominates(mu.Block()) {
+					return true
+				}
+			}
+		}
+	}
+	return false
+}
+
+func (w *World) isRepoField(fv *types.Var) bool {
+	return fv.Pkg() != nil && strings.HasPrefix(fv.Pkg().Path(), modulePath)
+}
+
+var mapFieldCache = map[*types.Var][2]string{}
+
+// mapFieldNeverNil: fv is a map-typed field of a repository struct. It holds when (a) every
+// store to the field stores a map that is non-nil (a make, a literal, or a value guarded
+// non-nil), and (b) for every allocation of the struct in the repository, such a store into
+// that allocation sits in a block that dominates every return of the allocating function that
+// is reachable from the allocation — so no path hands the object out with the field unset —
+// or the allocation never leaves the function with a nil field because the field is set in
+// the allocating block itself.
+func (w *World) mapFieldNeverNil(fv *types.Var) (bool, string) {
+	if c, ok := mapFieldCache[fv]; ok {
+		return c[0] == "ok", c[1]
+	}
+	res := func(ok bool, why string) (bool, string) {
+		k := "bad"
+		if ok {
+			k = "ok"
+		}
+		mapFieldCache[fv] = [2]string{k, why}
+		return ok, why
+	}
+	nonNilMap := func(v ssa.Value) bool {
+		switch y := stripConv(v).(type) {
+		case *ssa.MakeMap:
+			return true
+		case *ssa.Const:
+			return y.Value != nil
+		}
+		return false
+	}
+	// (a) all stores
+	for _, a := range w.FieldAccesses(fv) {
+		switch a.Kind {
+		case "store":
+			if !nonNilMap(a.Val) {
+				// copying the field from another object of the same type keeps the invariant
+				if f2, _ := loadedField(a.Val); f2 == fv {
+					continue
+				}
+				return res(false, fmt.Sprintf("%s stores %s into it at %s", fnName(a.Fn), Term(a.Val), w.Pos(a.Instr.Pos())))
+			}
+		case "escape":
+			return res(false, fmt.Sprintf("its address escapes in %s", fnName(a.Fn)))
+		}
+	}
+	// (b) all allocations of the owning struct
+	var owner *types.Named
+	for _, p := range w.All {
+		sc := p.Types.Scope()
+		for _, n := range sc.Names() {
+			tn, ok := sc.Lookup(n).(*types.TypeName)
+			if !ok {
+				continue
+			}
+			if st, ok := tn.Type().Underlying().(*types.Struct); ok {
+				for i := 0; i < st.NumFields(); i++ {
+					if st.Field(i) == fv {
+						owner, _ = tn.Type().(*types.Named)
+					}
+				}
+			}
+		}
+	}
+	if owner == nil {
+		return res(false, "owning struct not found")
+	}
+	for _, f := range w.SrcFuncs() {
+		var bad string
+		instrsOf(f, func(in ssa.Instruction) {
+			al, ok := in.(*ssa.Alloc)
+			if !ok || bad != "" {
+				return
+			}
+			if !types.Identical(al.Type().(*types.Pointer).Elem(), owner) {
+				return
+			}
+			// stores of a map into this allocation's field
+			var stBlocks []*ssa.BasicBlock
+			if refs := al.Referrers(); refs != nil {
+				for _, rf := range *refs {
+					fa, ok := rf.(*ssa.FieldAddr)
+					if !ok || fieldOfAddr(fa) != fv || fa.Referrers() == nil {
+						continue
+					}
+					for _, rr := range *fa.Referrers() {
+						if st, ok := rr.(*ssa.Store); ok && st.Addr == ssa.Value(fa) && nonNilMap(st.Val) {
+							stBlocks = append(stBlocks, st.Block())
+						}
+					}
+				}
+			}
+			if len(stBlocks) == 0 {
+				bad = fmt.Sprintf("%s allocates a %s at %s without giving the field a map", fnName(f), typeStr(owner), w.Pos(al.Pos()))
+				return
+			}
+			for _, ret := range returnsOf(f) {
+				// reachable from the allocation?
+				if !(al.Block() == ret.Block() || al.Block().Dominates(ret.Block()) || reachable(al.Block(), ret.Block())) {
+					continue
+				}
+				dom := false
+				for _, sb := range stBlocks {
+					if sb == ret.Block() || sb.Dominates(ret.Block()) {
+						dom = true
+					}
+				}
+				if !dom {
+					bad = fmt.Sprintf("%s can return at %s before the field of the %s allocated at %s is given a map", fnName(f), w.Pos(ret.Pos()), typeStr(owner), w.Pos(al.Pos()))
+					return
+				}
+			}
+		})
+		if bad != "" {
+			return res(false, bad)
+		}
+	}
+	return res(true, "")
+}
+
+func reachable(from, to *ssa.BasicBlock) bool {
+	seen := map[*ssa.BasicBlock]bool{}
+	stack := []*ssa.BasicBlock{from}
+	for len(stack) > 0 {
+		b := stack[len(stack)-1]
+		stack = stack[:len(stack)-1]
+		if b == to {
+			return true
+		}
+		if seen[b] {
+			continue
+		}
+		seen[b] = true
+		stack = append(stack, b.Succs...)
+	}
+	return false
 }
 
 // mapNonNil: the map value originates from make/literal (directly, through a local, a field that
